@@ -80,15 +80,27 @@ pub fn spaces_c01(tier: &str, _seed: u64) -> Vec<Box<dyn Space>> {
     v
 }
 pub fn spaces_c02(tier: &str, _seed: u64) -> Vec<Box<dyn Space>> {
-    sweep_spaces(Judge::C02, tier)
+    let mut v = sweep_spaces(Judge::C02, tier);
+    // "whenever a solve ends (Primal|Dual)Infeasible" includes re-solves on one solver object after data updates
+    // that make the problem infeasible (the update histories of C08; the closing solve is judged by the C02 oracle)
+    let maxd = if tier == "thorough" { 4 } else { 3 };
+    for base in 0..4 {
+        for depth in 1..=maxd {
+            if depth == maxd && base != 2 {
+                continue;
+            }
+            v.push(Box::new(super::c08::Hist { depth, base, equil: true, presolve_active: false }));
+        }
+    }
+    v
 }
 pub fn spaces_c03(tier: &str, _seed: u64) -> Vec<Box<dyn Space>> {
     let mut v = sweep_spaces(Judge::C03, tier);
     // "after any solve" includes solves that follow in-place data updates: the update histories
     // of C08 (whose closing solve is judged by the C03 oracle) are part of this property's space
     let maxd = if tier == "thorough" { 3 } else { 2 };
-    for base in 0..2 {
-        for depth in 1..=maxd {
+    for base in 0..4 {
+        for depth in 1..=(if base == 2 { maxd + 1 } else { maxd }) {
             v.push(Box::new(super::c08::Hist { depth, base, equil: true, presolve_active: false }));
         }
     }
